@@ -168,23 +168,32 @@ theorem tighter_first (o1 o2 : BinOp) (t1 t2 : Str) (a b c : Expr) (h : lvl o1 <
   rw [line1_map]
   simp [pr, fitsBin, h]
 
-/-- C03 (prefix sign): `- a o b` is `(-a) o b` for every binary operator `o`. -/
-theorem prefix_sign_tightest (o : BinOp) (t1 t2 : Str) (a : Atom) (b : Expr) :
-    Impl.parse T (program (line1 (.op .minus t1 :: .atom a :: .op o t2 :: pr b (.rightOf o) .none)) 1)
-      = .ok (.bin o t2 (.pre .neg t1 (.atom a)) b) := by
+/-- C03 (prefix sign): `- a o b` is `(-a) o b` for every binary operator `o` and arbitrary
+    operand trees (`a` written as an operand of the sign, `b` as a right operand of `o`). -/
+theorem prefix_sign_tightest (o : BinOp) (t1 t2 : Str) (a b : Expr) :
+    Impl.parse T (program (line1 (.op .minus t1 :: (pr a (.operandOf .neg) (.before o) ++
+        (.op o t2 :: pr b (.rightOf o) .none)))) 1)
+      = .ok (.bin o t2 (.pre .neg t1 a) b) := by
   apply pratt_print
   rw [line1_map]
   cases o <;> simp [pr, fitsBin, fitsPre, lvl, plvl, preTok]
 
-/-- C03 (`not`): `not a o b` is `not (a o b)` for a comparison, membership or arithmetic
-    operator `o`, and `(not a) o b` for `and`, `or`. -/
-theorem not_takes_comparison (o : BinOp) (t1 t2 : Str) (a b : Atom) :
-    Impl.parse T (program (line1 [.not t1, .atom a, .op o t2, .atom b]) 1)
-      = .ok (if lvl .and < lvl o then .pre .not t1 (.bin o t2 (.atom a) (.atom b))
-             else .bin o t2 (.pre .not t1 (.atom a)) (.atom b)) := by
+/-- C03 (`not` takes the comparison): `not a o b` is `not (a o b)` for a comparison,
+    membership or arithmetic operator `o`, for arbitrary operand trees. -/
+theorem not_takes_comparison (o : BinOp) (t1 t2 : Str) (a b : Expr) (h : lvl .and < lvl o) :
+    Impl.parse T (program (line1 (.not t1 :: (pr a (.leftOf o) (.before o) ++ (.op o t2 :: pr b (.rightOf o) .none)))) 1)
+      = .ok (.pre .not t1 (.bin o t2 a b)) := by
   apply pratt_print
   rw [line1_map]
-  cases o <;> simp [pr, fitsBin, fitsPre, lvl, plvl, preTok]
+  cases o <;> simp [lvl] at h <;> simp [pr, fitsBin, fitsPre, lvl, plvl, preTok]
+
+/-- C03 (`not` leaves and/or): `not a o b` is `(not a) o b` for `and`, `or` (and `:=`). -/
+theorem not_leaves_logic (o : BinOp) (t1 t2 : Str) (a b : Expr) (h : lvl o ≤ lvl .and) :
+    Impl.parse T (program (line1 (.not t1 :: (pr a (.operandOf .not) (.before o) ++ (.op o t2 :: pr b (.rightOf o) .none)))) 1)
+      = .ok (.bin o t2 (.pre .not t1 a) b) := by
+  apply pratt_print
+  rw [line1_map]
+  cases o <;> simp [lvl] at h <;> simp [pr, fitsBin, fitsPre, lvl, plvl, preTok]
 
 /-! ### non-vacuity and negative witnesses (tests, not proofs of the property) -/
 
@@ -438,6 +447,180 @@ theorem wrong_kind_is_error (o : BinOp) (t : Str) (l r : Expr) (ho : BinOp.arith
         cases v1 <;> simp [Impl.binOp, Impl.numOp, Impl.boolOp, Out.isVal]
 
 end Sem
+
+/-! ## End to end -/
+
+/-- C03 (source to value): every admissible writing of a tree `e` (no assignment, `%` operands in
+    range), on whatever lines, is parsed with the real table and evaluated the interpreter's way
+    to the value — or the error kind and named operand — the reference semantics gives `e`. -/
+theorem parse_then_eval {N : Type} (G : Cfg N) (e : Expr) (ks : List TK) (hp : Prints e .top .none ks)
+    (ts : List LTok) (eofLine : Nat) (h : ts.map (·.tk) = ks)
+    (ha : hasAssign e = false) (hm : Spec.modInRange G e = true) :
+    ∃ e', Impl.parse T (program ts eofLine) = .ok e' ∧ (Impl.eval G e').core = (Spec.eval G e).core :=
+  ⟨e, pratt_print_redundant e ks hp ts eofLine h, eval_refines_spec_partial G e ha hm⟩
+
+/-! ## Semantic content: an EXACT carrier (rationals) and sanity lemmas
+
+With the abstract carrier the theorems above say nothing about what `//` and `%` compute.
+Here the carrier is exact rational arithmetic: `//` is the floor of the exact quotient and `%`
+the remainder of the truncated operands, for ALL operands. (IEEE rounding, NaN, infinities
+are the differential run's business.) -/
+
+def truncQ (x : Rat) : Int := if 0 ≤ x then x.floor else -((-x).floor)
+
+def ratNum : Num Rat where
+  ofBits := fun b => (b : Rat)
+  add := (· + ·)
+  sub := (· - ·)
+  mul := (· * ·)
+  div := (· / ·)
+  neg := fun a => -a
+  floor := fun a => (a.floor : Rat)
+  lt := fun a b => decide (a < b)
+  le := fun a b => decide (a ≤ b)
+  eq := fun a b => decide (a = b)
+  toInt := truncQ
+  ofInt := fun i => (i : Rat)
+  text := fun _ => []
+  inInt64 := fun _ => true
+  wideMod := fun a b => if truncQ b = 0 then none else some ((Int.tmod (truncQ a) (truncQ b) : Int) : Rat)
+
+/-- variables `x`, `y` hold the two operands -/
+def ratCfg (a b : Rat) : Cfg Rat where
+  C := ratNum
+  re := fun _ _ => none
+  var := fun n => if n = [120] then .num a else if n = [121] then .num b else .null
+
+def vx : Expr := .atom (.ident [120])
+def vy : Expr := .atom (.ident [121])
+
+/-- `x // y` evaluates to the FLOOR of the exact quotient: the integer `q` with `q ≤ a/b < q+1`
+    — for all rationals (`-7 // 2 = -4`, not `-3`). -/
+theorem floordiv_is_floor (a b : Rat) :
+    ∃ q : Int, Impl.eval (ratCfg a b) (.bin .divint [47, 47] vx vy) = .val (.num (q : Rat)) ∧
+      (q : Rat) ≤ a / b ∧ a / b < ((q + 1 : Int) : Rat) :=
+  ⟨(a / b).floor, by simp [Impl.eval, Impl.binOp, Impl.numOp, Impl.atomVal, ratCfg, ratNum, vx, vy],
+    Rat.floor_le _, Rat.lt_floor_add_one _⟩
+
+/-- `x % y` on integers is the TRUNCATED remainder `r`: `a = (a quot b)·b + r`, `|r| < |b|`, and `r`
+    has the sign of the dividend (`-7 % 2 = -1`, `7 % -2 = 1`); a zero divisor is an error. -/
+theorem mod_is_truncated_remainder (a b : Int) (hb : b ≠ 0) :
+    ∃ r : Int, Impl.eval (ratCfg a b) (.bin .modint [37] vx vy) = .val (.num (r : Rat)) ∧
+      a = Int.tdiv a b * b + r ∧ r.natAbs < b.natAbs ∧ (0 ≤ a → 0 ≤ r) ∧ (a ≤ 0 → r ≤ 0) := by
+  have hta : truncQ (a : Rat) = a := by
+    unfold truncQ; split
+    · exact Rat.floor_intCast a
+    · have : (-(a : Rat)) = ((-a : Int) : Rat) := by simp
+      rw [this, Rat.floor_intCast]; omega
+  have htb : truncQ (b : Rat) = b := by
+    unfold truncQ; split
+    · exact Rat.floor_intCast b
+    · have : (-(b : Rat)) = ((-b : Int) : Rat) := by simp
+      rw [this, Rat.floor_intCast]; omega
+  refine ⟨Int.tmod a b, ?_, ?_, ?_, ?_, ?_⟩
+  · simp [Impl.eval, Impl.binOp, Impl.numOp, Impl.modOp, Impl.atomVal, ratCfg, ratNum, vx, vy, hta, htb, hb]
+  · have := Int.mul_tdiv_add_tmod a b; rw [Int.mul_comm] at this; omega
+  · rw [Int.natAbs_tmod]
+    exact Nat.mod_lt _ (by omega)
+  · intro h; exact Int.tmod_nonneg b h
+  · intro h
+    have := Int.tmod_nonneg (a := -a) b (by omega)
+    rw [Int.neg_tmod] at this; omega
+
+theorem mod_by_zero_is_error (a : Int) :
+    Impl.eval (ratCfg a 0) (.bin .modint [37] vx vy) = .err .runtime [] none := by
+  have : truncQ (0 : Rat) = 0 := by decide
+  simp [Impl.eval, Impl.binOp, Impl.numOp, Impl.modOp, Impl.atomVal, ratCfg, ratNum, vx, vy, this]
+
+section Sanity
+variable {N : Type} (G : Cfg N)
+
+/-- `!=` is the negation of `==` -/
+theorem neq_is_not_eq (n1 n2 : Str) (v1 v2 : Val N) :
+    Impl.binOp G .neq n1 n2 (.val v1) (.val v2) = .val (.bool (!Val.eqv G.C v1 v2)) ∧
+    Impl.binOp G .eq n1 n2 (.val v1) (.val v2) = .val (.bool (Val.eqv G.C v1 v2)) := by
+  simp [Impl.binOp, Impl.genOp]
+
+/-- on two strings `>=` is the negation of `<`, `<=` of `>`, and `>` is `<` with the operands swapped -/
+theorem string_comparisons (n1 n2 : Str) (a b : Str) :
+    Impl.binOp G .lt n1 n2 (.val (.str a)) (.val (.str b)) = .val (.bool (strLt a b)) ∧
+    Impl.binOp G .geq n1 n2 (.val (.str a)) (.val (.str b)) = .val (.bool (!strLt a b)) ∧
+    Impl.binOp G .gt n1 n2 (.val (.str a)) (.val (.str b)) = .val (.bool (strLt b a)) ∧
+    Impl.binOp G .leq n1 n2 (.val (.str a)) (.val (.str b)) = .val (.bool (!strLt b a)) := by
+  simp [Impl.binOp, Impl.cmpOp, Impl.numOp, Impl.strOp, Val.text]
+
+/-- `notin` is the negation of `in` -/
+theorem notin_is_not_in (n1 n2 : Str) (v : Val N) (vs : Vals N) :
+    Impl.binOp G .notin n1 n2 (.val v) (.val (.list vs)) = .val (.bool (!Vals.has G.C v vs)) ∧
+    Impl.binOp G .isin n1 n2 (.val v) (.val (.list vs)) = .val (.bool (Vals.has G.C v vs)) := by
+  simp [Impl.binOp, Impl.listOp]
+
+end Sanity
+
+/-- the lexical order on byte strings is a strict total order -/
+theorem strLt_irrefl : ∀ a : Str, strLt a a = false
+  | [] => rfl
+  | x :: xs => by simp [strLt, strLt_irrefl xs]
+
+theorem strLt_trichotomy : ∀ a b : Str, strLt a b = true ∨ a = b ∨ strLt b a = true
+  | [], [] => by simp
+  | [], _ :: _ => by simp [strLt]
+  | _ :: _, [] => by simp [strLt]
+  | x :: xs, y :: ys => by
+    rcases Nat.lt_trichotomy x y with h | h | h
+    · left; simp [strLt, h]
+    · subst h
+      rcases strLt_trichotomy xs ys with h' | h' | h'
+      · left; simp [strLt, h']
+      · right; left; rw [h']
+      · right; right; simp [strLt, h']
+    · right; right; simp [strLt, h]
+
+theorem strLt_asymm : ∀ a b : Str, strLt a b = true → strLt b a = false
+  | [], [], h => by simp [strLt] at h
+  | [], _ :: _, _ => by simp [strLt]
+  | _ :: _, [], h => by simp [strLt] at h
+  | x :: xs, y :: ys, h => by
+    simp only [strLt] at h ⊢
+    split at h
+    · rename_i hxy
+      have : ¬ y < x := by omega
+      simp [this]; omega
+    · split at h
+      · simp at h
+      · rename_i h1 h2
+        have : x = y := by omega
+        subst this
+        simp [strLt_asymm xs ys h]
+
+theorem strLt_trans : ∀ a b c : Str, strLt a b = true → strLt b c = true → strLt a c = true
+  | [], [], _, h, _ => by simp [strLt] at h
+  | [], _ :: _, [], _, h => by simp [strLt] at h
+  | [], _ :: _, _ :: _, _, _ => by simp [strLt]
+  | _ :: _, [], _, h, _ => by simp [strLt] at h
+  | _ :: _, _ :: _, [], _, h => by simp [strLt] at h
+  | x :: xs, y :: ys, z :: zs, h1, h2 => by
+    simp only [strLt] at h1 h2 ⊢
+    split at h1
+    · split at h2
+      · have : x < z := by omega
+        simp [this]
+      · split at h2
+        · simp at h2
+        · have : x < z := by omega
+          simp [this]
+    · split at h1
+      · simp at h1
+      · have hxy : x = y := by omega
+        subst hxy
+        split at h2
+        · rename_i h; simp [h]
+        · split at h2
+          · simp at h2
+          · rename_i h3 h4 h5 h6
+            have : x = z := by omega
+            subst this
+            simp [strLt_trans xs ys zs h1 h2]
 
 /-! ### non-vacuity of the semantic theorems: a toy carrier (integers) -/
 
